@@ -45,7 +45,7 @@ func main() {
 	r.Set("evaluations", int64(runs))
 	r.Set("distinct_nontrivial", int64(scen))
 	r.Set("race_reports", reports)
-	r.Set("rule", "AUXILIARY, not the deciding step: the bodies of the concurrency scenarios (coincide at three offsets, N=1, ticker2, tm3, close, keepalive traffic) run free (scheduler absent) inside virtual-time bubbles in a binary built with -race, repeated; a race report is a violation (the detector has no false positives), silence is weak evidence; distinct_nontrivial = scenarios run")
+	r.Set("rule", "AUXILIARY, not the deciding step: the bodies of the concurrency scenarios (coincide at three offsets, N=1, ticker2, tm3, close, keepalive traffic, lossy adaptive traffic with retransmissions, tmstress: the TimeoutManager calls of the send/receive/API goroutines looped 3000x) run free (scheduler absent) inside virtual-time bubbles in a binary built with -race, repeated; a race report is a violation (the detector has no false positives), silence is weak evidence; distinct_nontrivial = scenarios run")
 	r.Set("exhaustive", false)
 	r.Sample(map[string]any{"scenario": "coincide/N=2/at=1999ms", "mode": "free-running under -race"})
 	os.Exit(r.Finish())
